@@ -2007,7 +2007,7 @@ Error Assembler::_emit(InstId inst_id, const Operand_& o0, const Operand_& o1, c
           goto InvalidPhysId;
 
         uint64_t cond = o2.as<Imm>().value_as<uint64_t>();
-        if (cond - 2u > 0xEu)
+        if (cond - 2u >= 0xEu)
           goto InvalidImmediate;
 
         opcode.reset(op_data.opcode);
@@ -2368,6 +2368,9 @@ Error Assembler::_emit(InstId inst_id, const Operand_& o0, const Operand_& o1, c
         uint64_t imm = o1.as<Imm>().value_as<uint64_t>();
 
         opcode.reset(op_data.opcode);
+        if (imm >= 64)
+          goto InvalidImmediate;
+
         if (imm >= 32) {
           if (!x)
             goto InvalidImmediate;
